@@ -72,13 +72,16 @@ def make_population(w, n, problem, evaluator):
     return pop
 
 
-def make_problem(w):
+def make_problem(w, nan=False):
+    """nan=True: the fitness function returns NaN for about a third of the programs (0/0, log of a
+    negative number ... - a legal float); population sizes must not depend on it."""
     from geneticengine.problems import SingleObjectiveProblem
 
     info = w.info
 
     def ff(p):
-        return float(hashlib.sha256(canon_str(canon(p, info)).encode()).digest()[0] % 11)
+        v = hashlib.sha256(canon_str(canon(p, info)).encode()).digest()[0] % 11
+        return float("nan") if nan and v < 4 else float(v)
 
     return SingleObjectiveProblem(ff)
 
@@ -193,7 +196,8 @@ class Compositions(Facet):
 
         w = make_world(case["seed"], case["rep"])
         try:
-            problem = make_problem(w)
+            problem = make_problem(w, nan=case["seed"] % 5 == 1)
+            rec.label("fitness:with-NaN" if case["seed"] % 5 == 1 else "fitness:finite")
             ev = SequentialEvaluator()
             tracker = SingleObjectiveProgressTracker(problem, ev)
             pop = make_population(w, case["size"], problem, ev)
@@ -356,7 +360,8 @@ class GPRuns(Facet):
 
         w = make_world(case["seed"], case["rep"], extra_depth=case.get("extra_depth", 0))
         try:
-            problem = make_problem(w)
+            problem = make_problem(w, nan=case["seed"] % 5 == 1)
+            rec.label("fitness:with-NaN" if case["seed"] % 5 == 1 else "fitness:finite")
             seen = []
             extra = {}
             if case.get("init", "default") != "default":
